@@ -1,8 +1,8 @@
-(* Histories of map_to / unmap / update_flags calls on the MappedPageTable memory model: the
+(* Histories of map_to / unmap / update_flags / set_flags_p*_entry calls on the MappedPageTable memory model: the
    table memory always represents the tree the abstract operations build, so the independent
    hardware walk of the raw memory reads exactly what the history dictates. *)
 From X86 Require Import Base.Bits Addr.Index Paging.EntryProofs Paging.Mapped Paging.MemProofs
-  Paging.Tree Paging.TreeProofs Paging.Refine Paging.RefineOps Paging.RefineWalk Paging.Run.
+  Paging.Tree Paging.TreeProofs Paging.Refine Paging.RefineOps Paging.RefineParent Paging.RefineWalk Paging.Run.
 From Coq Require Import FMapPositive.
 Require Import Lia.
 Open Scope Z_scope.
@@ -17,7 +17,8 @@ Qed.
 Inductive mop :=
 | MMap (k page frame flags pflags : Z)
 | MUnmap (k page : Z)
-| MUpdate (k page flags : Z).
+| MUpdate (k page flags : Z)
+| MSetParent (k level page flags : Z).
 (* the calls the property quantifies over: sizes 0..2, leaf flags with PRESENT (the leaf word is
    a u64 with PRESENT, and HUGE_PAGE for the huge sizes), parent flags with PRESENT, without
    HUGE_PAGE and without address bits *)
@@ -27,18 +28,21 @@ Definition mop_ok (o : mop) : Prop :=
       0 <= k <= 2 /\ pflags_ok pf /\ leaf_ok (Z.to_nat (k + 1)) (leaf_word k frame flags)
   | MUnmap k page => 0 <= k <= 2
   | MUpdate k page flags => 0 <= k <= 2 /\ 0 <= flags < W64 /\ Z.testbit flags 0 = true
+  | MSetParent k level page flags => 2 <= level <= 4 /\ 0 <= k <= 2 /\ pflags_ok flags
   end.
 Definition to_top (o : mop) : top :=
   match o with
   | MMap k page frame flags pf => OMap k page frame flags pf
   | MUnmap k page => OUnmap k page
   | MUpdate k page flags => OUpdate k page flags
+  | MSetParent k level page flags => OSetParent k level page flags
   end.
 Definition mem_apply (s : pstate) (o : mop) : res (pstate * out) :=
   match o with
   | MMap k page frame flags pf => map_to s k page frame flags pf
   | MUnmap k page => Ok (unmap s k page)
   | MUpdate k page flags => Ok (update_flags s k page flags)
+  | MSetParent k level page flags => Ok (set_flags_parent s k level page flags)
   end.
 Fixpoint mem_run (s : pstate) (ops : list mop) : res (pstate * list out) :=
   match ops with
@@ -58,7 +62,7 @@ Theorem step_refines s ch fr r o : Inv s ch -> mop_ok o ->
   exists s' out ch', mem_apply s o = Ok (s', out) /\
     apply_op false r (tst ch s fr) (to_top o) = (tst ch' s' fr, out) /\ Inv s' ch'.
 Proof.
-  intros (Hrep & Ht & Hsep) Hok. destruct o as [k page frame flags pf|k page|k page flags]; cbn [mop_ok] in Hok.
+  intros (Hrep & Ht & Hsep) Hok. destruct o as [k page frame flags pf|k page|k page flags|k level page flags]; cbn [mop_ok] in Hok.
   - destruct Hok as (Hk & Hpf & Hw).
     destruct (map_to_refines s ch k page frame flags pf Hk Hrep Ht Hsep Hpf Hw)
       as (s' & o & ch' & a' & res & Hm & Hmp & Ho & Haor & Hroot & _ & Hrep' & Hsep' & _).
@@ -80,6 +84,17 @@ Proof.
     split; [cbn [mem_apply]; destruct (update_flags s k page flags); reflexivity|]. split.
     + cbn [to_top apply_op tst t_root t_aor t_freed]. rewrite Ho.
       destruct (t_update_flags ch (idx_list k page) k page flags) as [ch' o']. cbn [fst snd]. unfold tst.
+      destruct (same_alloc_va _ _ Hsa) as [_ Haor]. rewrite Haor. reflexivity.
+    + split; [exact Hrep'|]. split; [destruct Hsa as (_ & _ & _ & Hr); rewrite Hr; exact Ht|exact Hsep'].
+  - destruct Hok as (Hl & Hk & Hfl).
+    pose proof (set_flags_parent_refines s ch k level page flags fr r Hl Hk Hrep Ht Hsep Hfl)
+      as (Ho & Hao & Hfr & Hrep' & Hsep' & Hsa & _).
+    exists (fst (set_flags_parent s k level page flags)), (snd (set_flags_parent s k level page flags)),
+           (t_root (fst (apply_op false r (tst ch s fr) (OSetParent k level page flags)))).
+    split; [cbn [mem_apply]; destruct (set_flags_parent s k level page flags); reflexivity|]. split.
+    + cbn [to_top]. unfold tst in *. rewrite Ho.
+      destruct (apply_op false r {| t_root := ch; t_aor := aor_of s; t_freed := fr |} (OSetParent k level page flags)) as [ts o'].
+      cbn [fst snd] in *. destruct ts as [tr ta tf]. cbn [t_root t_aor t_freed] in *. subst ta tf.
       destruct (same_alloc_va _ _ Hsa) as [_ Haor]. rewrite Haor. reflexivity.
     + split; [exact Hrep'|]. split; [destruct Hsa as (_ & _ & _ & Hr); rewrite Hr; exact Ht|exact Hsep'].
 Qed.
@@ -143,10 +158,10 @@ Proof.
 Qed.
 Example hypotheses_satisfiable :
   let allocs := [2097152; 3145728; 5242880; -1] in
-  let ops := [MMap 0 4096 8192 3 7; MMap 1 2097152 4194304 1 1; MUnmap 0 4096; MUpdate 1 2097152 3] in
+  let ops := [MMap 0 4096 8192 3 7; MMap 1 2097152 4194304 1 1; MSetParent 0 4 4096 3; MUnmap 0 4096; MUpdate 1 2097152 3] in
   tframe 1048576 /\ sep (init_pstate 1048576 allocs 0) 1048576 empty_children /\ Forall mop_ok ops /\
   exists s' outs, mem_run (init_pstate 1048576 allocs 0) ops = Ok (s', outs) /\
-    outs = [[0; 4096]; [0; 2097152]; [0; 8192; 4096]; [0; 2097152]].
+    outs = [[0; 4096]; [0; 2097152]; [0]; [0; 8192; 4096]; [0; 2097152]].
 Proof.
   cbv zeta. split; [unfold tframe, P52; lia|]. split.
   - unfold sep. rewrite va_init, frames_of_empty_children. cbn [app filter valid_alloc].
